@@ -9,6 +9,7 @@ import (
 
 	"verif/ev"
 	"verif/ir"
+	"verif/ref"
 )
 
 var (
@@ -339,5 +340,19 @@ func GenRequest(t *rapid.T, w *World, o ValOpts) ir.Request {
 	r := ir.Request{Principal: pickEnt("p"), Resource: pickEnt("r")}
 	r.Action = ir.Ent(ActionType, pick(t, ActionIDs, "reqaid"))
 	r.Context = RecordVal(t, 2, o)
+	// strings that are valid arguments of the extension constructors, so that `datetime(context.dts)` and friends
+	// (constructors applied to request-dependent operands, which are never constant-folded) evaluate to values
+	if !o.NoExt && chance(t, 40, "ctxscalartext") {
+		add := func(k string, v ir.Value) {
+			if _, dup := r.Context.Get(k); !dup {
+				r.Context.Fields = append(r.Context.Fields, ir.F(k, v))
+			}
+		}
+		add("dts", ir.Str(ref.FormatDatetime(DatetimeVal(t))))
+		add("durs", ir.Str(ref.FormatDuration(TimeVal(t))))
+		add("decs", ir.Str(ref.FormatDecimal(DecimalVal(t))))
+		ip := IPVal(t, false)
+		add("ips", ir.Str(ref.FormatIP(ip.IP.Addr, ip.IP.Prefix)))
+	}
 	return r
 }
